@@ -32,6 +32,7 @@ import (
 func TestMain(m *testing.M) {
 	harness.Describe(
 		"programs from the full grammar the embedded parser accepts (lib/jqgen Full mode: every binary operator and precedence level incl. // ?// and the non-associative ones, unary + and -, postfix ? and ??, try with and without catch directly under operators, if without else, reduce/foreach/label/break, nested defs with closure and $ parameters, as-binds with array/object destructuring and ?// alternatives, object construction with identifier/keyword/string/interpolated/computed/$variable keys, value pipes and trailing commas, index/slice/iterate suffix chains, string interpolation and @format strings, module/import/include directives with constant metadata, $__loc__, module-qualified names, fq literal extensions: `raw strings`, 0x/0o/0b literals with digit separators; rendered with random redundant parentheses, dropped parentheses, odd whitespace and comments). Programs the parser rejects are counted and skipped. Non-trivial: the parsed AST has >= 2 different binary operators, or a bind / def / try / reduce / foreach / label below a binary operator. distinct = hash of program text (+ wrapper configuration for the rewrite test).",
+		"slurp family (TestPipeLast): Q = P | FINAL with FINAL in repl, repl({}), repl({compact: true}), slurp(\"v\"), help and P a generated right spine of 1-4 segments (t as $x |, destructuring and ?// binds, def f: ..;, parenthesised and nested pipes, unparenthesised programs) ending in a term, a parenthesised or an open generated program: when FINAL is at the end of the spine, _query_pipe_last must return its call, _query_transform_pipe_last([.]) must be (text, tree or evaluation) the literal P | [.], and _eval_query_rewrite with the REPL's slurp table must give SLURPFN({slurp, slurp_args, orig, rewrite}) whose .rewrite is the literal .[] | try (P | .) catch error; non-trivial there: the spine has a bind, a def, a nested pipe or >= 3 segments. TestReplSeeds drives 8 real `fq -i` sessions with a scripted readline (bind | ... | repl, slurp(\"v\") then $v). Generated P never defines repl/slurp/help (that is the listed finding)",
 		"oracle 1 compares ASTs as fq's own JSON form; parenthesis nodes (TermTypeQuery without suffix) are removed on both sides, so only grouping that changes the tree counts",
 		"oracle 2 and the semantic part of oracle 3 run on the reference engine with debug/stderr defined as pass-through; programs with directives or names only the full grammar has ($__loc__, module-qualified names) usually do not compile there and then only the syntactic oracles apply",
 		"oracle 3 uses wrapper queries that are terms (a call, a literal, a parenthesised query), as both real callers (_cli_eval, _repl_eval) do; a non-term catch query is not a configuration fq uses",
